@@ -246,38 +246,44 @@ fn map_diagnostic(
 ) -> CodeSpanDiagnostic<usize> {
     let description = diagnostic.description();
 
-    // Set the primary labels
-    let mut labels = vec![map_label(
-        &diagnostic.primary,
-        LabelStyle::Primary,
-        file_to_id,
-    )];
+    // Labels show the source text so they can only be shown for files that
+    // are known. A label that does not name a known file (for example, a
+    // problem that is about the set of files rather than one file) is
+    // reported as a note so that the diagnostic is never lost.
+    let mut labels = vec![];
+    let mut notes = vec![];
 
-    // Add any secondary labels
-    labels.extend(
+    let all_labels = std::iter::once((&diagnostic.primary, LabelStyle::Primary)).chain(
         diagnostic
             .secondary
             .iter()
-            .map(|lbl| map_label(lbl, LabelStyle::Secondary, file_to_id)),
+            .map(|lbl| (lbl, LabelStyle::Secondary)),
     );
+    for (label, style) in all_labels {
+        match map_label(label, style, file_to_id) {
+            Some(mapped) => labels.push(mapped),
+            None => notes.push(label.message.clone()),
+        }
+    }
 
     CodeSpanDiagnostic::new(Severity::Error)
         .with_code(diagnostic.code.clone())
         .with_message(description)
         .with_labels(labels)
+        .with_notes(notes)
 }
 
 fn map_label(
     label: &Label,
     style: LabelStyle,
     file_to_id: &HashMap<&FileId, usize>,
-) -> CodeSpanLabel<usize> {
+) -> Option<CodeSpanLabel<usize>> {
     let range = Range {
         start: label.location.start,
         end: label.location.end,
     };
-    let id = file_to_id.get(&label.file_id);
-    CodeSpanLabel::new(style, *id.unwrap_or(&0), range).with_message(&label.message)
+    let id = file_to_id.get(&label.file_id)?;
+    Some(CodeSpanLabel::new(style, *id, range).with_message(&label.message))
 }
 
 fn diagnostic(problem: Problem, path: &Path, message: String) -> Vec<Diagnostic> {
